@@ -224,7 +224,7 @@ where
                 f_bi[i - 1] = v_3;
                 step_i[i - 1] = step_i[i - 2];
                 tol_i[i - 1] = tol_i[i - 2];
-                sum_i[i - 1] = sum_i[i - 2];
+                sum_i[i - 1] = s1;
                 l_i[i - 1] = l_i[i - 2];
             }
         }
